@@ -590,3 +590,48 @@ impl compio_io::util::Splittable for SimStream {
         (self.clone(), self)
     }
 }
+
+// ------------------------------------------------------------------ poll-style endpoint
+
+/// The same channel pair as `SimStream`, exposed through the futures-io traits
+/// directly (an unbuffered poll-style transport: `poll_write` itself may be
+/// short or `Pending`).
+#[derive(Clone)]
+pub struct FutStream {
+    pub rx: Chan,
+    pub tx: Chan,
+}
+
+impl From<SimStream> for FutStream {
+    fn from(s: SimStream) -> Self {
+        FutStream { rx: s.rx, tx: s.tx }
+    }
+}
+
+impl futures_util::io::AsyncRead for FutStream {
+    fn poll_read(self: std::pin::Pin<&mut Self>, cx: &mut Context<'_>, buf: &mut [u8]) -> Poll<io::Result<usize>> {
+        // SAFETY: u8 -> MaybeUninit<u8> view of an initialised buffer; we only write initialised bytes
+        let dst = unsafe { std::slice::from_raw_parts_mut(buf.as_mut_ptr() as *mut MaybeUninit<u8>, buf.len()) };
+        self.rx.poll_read_into(cx, dst)
+    }
+}
+
+impl futures_util::io::AsyncWrite for FutStream {
+    fn poll_write(self: std::pin::Pin<&mut Self>, cx: &mut Context<'_>, buf: &[u8]) -> Poll<io::Result<usize>> {
+        self.tx.poll_write_from(cx, &[buf])
+    }
+
+    fn poll_flush(self: std::pin::Pin<&mut Self>, cx: &mut Context<'_>) -> Poll<io::Result<()>> {
+        self.tx.poll_flush_chan(cx)
+    }
+
+    fn poll_close(self: std::pin::Pin<&mut Self>, cx: &mut Context<'_>) -> Poll<io::Result<()>> {
+        match self.tx.poll_flush_chan(cx) {
+            Poll::Ready(Ok(())) => {
+                self.tx.close_write();
+                Poll::Ready(Ok(()))
+            }
+            other => other,
+        }
+    }
+}
